@@ -14,7 +14,13 @@ def replay(modname, path):
     vk = common.import_votekit()
     r = mod.run_case(vk, case)
     bad = False
+    known = engine.load_known()
     for m in r.get("monitors", []):
+        k = engine.match_known(known, mod.PROP, m.get("failure", {}))
+        if k:
+            print(f"KNOWN-FINDING: property={mod.PROP} {k['id']} {k['what']}")
+            print("  (monitor:", m["name"], "-", m["detail"][:300] + ")")
+            continue
         print("MONITOR FAILS:", m["name"], "-", m["detail"][:300])
         bad = True
     if r.get("req") is not None:
